@@ -10,7 +10,18 @@ import numpy as np
 
 from .. import common as C
 from . import _an
-from .C06 import LD, U, tone, omega_of, hw_bins, viol, full, remember, win_opts, ref_window, win_transform
+from .C06 import LD, U, tone, omega_of, hw_bins, viol as _viol, remember, win_opts, ref_window, win_transform
+
+
+def full(P: C.Part) -> bool:
+    """stop searching after 8 violations that are NOT the recorded finding D12"""
+    return len([v for v in P.violations if v.signature.get("envelope") != "within-1.5dB"]) >= 8
+
+
+def viol(P: C.Part, what: str, sig, case, **extra):
+    if sig.get("envelope") == "within-1.5dB" and len([v for v in P.violations if v.signature.get("envelope") == "within-1.5dB"]) >= 6:
+        return          # keep a few instances of the recorded finding, not hundreds
+    _viol(P, what, sig, case, **extra)
 
 PROP = "C12"
 GEN_REGIONS = ["CoreKernels"]
@@ -28,8 +39,12 @@ ASSUMPTIONS = [
     "(kaiser_alpha is the stated cubic) and goertzelS_dft (the recurrence equals the DFT at fractional bins)",
     "the side-lobe claim is therefore decided by the oracle, which measures leakage on the real single-bin and full-plan paths; measured on the "
     "unchanged tree the window transform alone comes within 0.06 dB of the requested P-1 dB (L=64, P~195: first side lobe at -(P-0.94) dB) and "
-    "the image term W(w+w0) of a tone one main-lobe width from 0 or Nyquist can add up to ~1.2 dB more, so the oracle alarms only beyond "
-    "SLACK_DB = 3 dB above -(P-1) dB (worst measured margin is written to the evidence notes every run)",
+    "the image term W(w+w0) of a tone one main-lobe width from 0 or Nyquist adds to it: the triangle bound (|W(w-w0)|+|W(w+w0)|)/(S1-|W(2w0)|) "
+    "reaches -(P-1)+1.20 dB (L=64, P=44.75, tone at L/2 - main lobe) and the real single-bin path was measured at -(P-1)+0.95 dB "
+    "(L=127, P=40). Read literally the 'P-1 dB' claim is therefore missed by up to ~1 dB for tones within a few main-lobe widths of 0 or "
+    "Nyquist; this is a property of the sampled window plus the negative-frequency image. It is recorded as known finding D12 "
+    "(KNOWN_FINDINGS.txt): a miss of the stated level by less than 1.5 dB is reported as KNOWN-FINDING, anything larger is a violation "
+    "(the worst measured margin is written to the evidence notes every run)",
     "leakage at rounding level: responses are compared against max(requested level, rounding floor) with floor amplitude "
     "A*S1*u*(4L + 2*sqrt(L)/|sin w|), an empirical (not proved) bound >= 20x the largest rounding error observed for L <= 65536",
     "rounding / fastmath re-association are covered by tolerances, not by theorem",
@@ -40,7 +55,7 @@ RULE = ("cases: unit-amplitude tone at fractional bin position m0 (at least 1.00
         "plus full-plan analyses of a tone where every bin beyond the main lobe is compared with the single-bin response at the tone. "
         "distinct by (L, P rounded, side, near/far offset, K class, path); non-trivial = the requested level is above the rounding floor")
 
-SLACK_DB = 3.0
+SLACK_DB = 0.0
 STATS: Dict[str, Any] = {}
 LSET = [64, 100, 256, 1000, 4096, 16384]
 LSET_THOROUGH = [65, 127, 1001, 4097, 65536, 100003]
@@ -86,8 +101,13 @@ def gen_leak(rng: np.random.Generator, thorough: bool, i: int) -> Dict[str, Any]
             "via": str(rng.choice(["method", "func"])), "win": str(rng.choice(["kaiser", "kaiser", "np_kaiser", "sp_kaiser"]))}
 
 
+ENVELOPE_DB = 1.5   # known finding D12: on the unchanged code the literal P-1 dB level is missed by up to ~1.2 dB in two corners
+
+
 def _judge(P: C.Part, c, sig, XX, XX0, Pdb, A, S1, L, omega, K, info):
-    """the predicate sqrt(XX) <= sqrt(thr*XX0) + floor; returns (holds, floor-dominated, limit)"""
+    """the predicate sqrt(XX) <= sqrt(thr*XX0) + floor at the level the property states, -(P-1) dB (SLACK_DB = 0);
+    returns (holds, floor-dominated, limit).  A miss by less than ENVELOPE_DB is labelled `within-1.5dB` in the
+    violation signature (that is the recorded finding D12); a larger miss is labelled `beyond` and is never suppressed."""
     thr = 10.0 ** ((-(Pdb - 1.0) + SLACK_DB) / 10.0)
     fl = floor_amp(A, S1, L, omega)
     lim = math.sqrt(thr * XX0) + fl
@@ -95,7 +115,12 @@ def _judge(P: C.Part, c, sig, XX, XX0, Pdb, A, S1, L, omega, K, info):
     P.hit("leak.floor-dominated" if dominated else "leak.above-floor")
     if XX > 0 and XX0 > 0 and not dominated:
         note_margin(-(Pdb - 1.0) - 10.0 * math.log10(XX / XX0), info)
-    return math.sqrt(max(XX, 0.0)) <= lim, dominated, lim
+    holds = math.sqrt(max(XX, 0.0)) <= lim
+    lim_env = math.sqrt(10.0 ** ((-(Pdb - 1.0) + ENVELOPE_DB) / 10.0) * XX0) + fl
+    sig["envelope"] = "within-1.5dB" if math.sqrt(max(XX, 0.0)) <= lim_env else "beyond"
+    if not holds:
+        P.hit("leak.above-P-1dB:" + sig["envelope"])
+    return holds, dominated, lim
 
 
 def check_leak(P: C.Part, c: Dict[str, Any]) -> None:
@@ -144,9 +169,10 @@ def check_leak(P: C.Part, c: Dict[str, Any]) -> None:
         if not ok:
             rel = 10 * math.log10(max(XX, 1e-320) / XX0)
             viol(P, f"Kaiser psll={Pdb:.2f} dB, L={L}, tone at bin {m0:.4f}, analysed {d:+.4f} bins away (main lobe half-width {hw_bins(Pdb):.3f}): response is "
-                    f"{rel:.2f} dB relative to the response at the tone, required <= {-(Pdb - 1):.2f} dB (+{SLACK_DB} dB slack, rounding floor included)",
+                    f"{rel:.2f} dB relative to the response at the tone, required <= {-(Pdb - 1):.2f} dB (rounding floor included)",
                  dict(sig0, side="+" if d > 0 else "-"), c, delta=d, observed_db=rel, XX=XX, XX0=XX0)
-            break
+            if sig0.get("envelope") == "beyond":
+                break
     P.sample({"op": "leak", **{k: c[k] for k in ("L", "N", "P", "fs", "m0", "via")}, "K": K, "offsets": [round(d, 3) for d in c["deltas"][:4]]}, cap=3)
 
 
@@ -202,8 +228,9 @@ def check_plan(P: C.Part, c: Dict[str, Any]) -> None:
         if not ok:
             rel = 10 * math.log10(max(XX, 1e-320) / XX0)
             viol(P, f"full analysis ({c['scheduler']}), Kaiser psll={Pdb:.2f} dB: bin {j} (L={L}) lies {d:+.3f} bins from the tone but its response is {rel:.2f} dB "
-                    f"relative to the response at the tone, required <= {-(Pdb - 1):.2f} dB (+{SLACK_DB} dB slack)", dict(sig0), c, bin=j, observed_db=rel)
-            return
+                    f"relative to the response at the tone, required <= {-(Pdb - 1):.2f} dB", dict(sig0), c, bin=j, observed_db=rel)
+            if sig0.get("envelope") == "beyond":
+                return
     P.hit(f"plan.bins-checked={min(done, 8)}")
 
 
@@ -308,7 +335,7 @@ def oracle(ctx, intensive: bool = False, hints=()) -> C.Part:
     if "worst" in STATS:
         mg, info = STATS["worst"]
         P.notes.append(f"worst measured margin to the requested -(P-1) dB level over this run: {mg:+.3f} dB at {info} "
-                       f"(negative = above -(P-1) dB; the check alarms below -{SLACK_DB} dB)")
+                       f"(negative = above the -(P-1) dB level the property states: reported as known finding D12 while within {ENVELOPE_DB} dB, as a violation beyond)")
     return P
 
 
